@@ -34,9 +34,16 @@ prop(
         "generated RFC 3779 values (block lists from the boundary-dense endpoint pool of the C03 generators — ranges ending at the last / starting at the first address or AS number, whole space, zero-length, adjacent, overlapping, unsorted, one in eight with a reversed range — "
         "written canonically or raw by the independent DER writer as SEQUENCE OF IPAddressOrRange / ASIdOrRange, IPAddrBlocks with one or both families or inherit, ASIdentifiers): 64 k (quick) / 800 k (thorough) through the resource entry points in DER and BER mode, "
         "and 6.4 k / 80 k planted into the resource extensions of the pool-signed certificates and signed objects (EE certificate) and re-signed, so that the accessor sweep of the decoded object and validation against the fixed issuer run over them (range-to-prefix decomposition, counts, displays, set algebra); "
+        "the scaling workload (c04_scale.rs): 49 shapes, one per list-like structure a decoder walks — IPAddrBlocks / bare IPAddressOrRange lists (IPv4 prefixes, IPv6 ranges, both families), ASIdentifiers / bare ASIdOrRange lists (ids, ranges), manifest FileAndHash list (content alone and in a re-signed manifest), "
+        "revokedCertificates (TBSCertList, bare list, signed CRL, the CRL inside a signed protocol message), Name (n RDNs, one RDN of n attributes; alone, as certificate / CSR / identity-certificate subject), TAL (n URI lines, n comment lines), ROA addresses (IPv4, IPv6 with maxLength, both), "
+        "a ROA whose eContent is a BER constructed OCTET STRING of n segments, ASPA providers (up to the 16380 the decoder admits), certificate RFC 3779 extensions (IPv4 prefixes, IPv6 ranges, AS ranges), n unknown certificate / identity-certificate / protocol-CRL extensions, SIA access descriptions (certificate, CSR), AIA and CRLDP names, policy qualifiers, EKU key purposes, "
+        "unknown signed attributes of a protocol message (up to the 65535-octet limit), RTA subject keys / AS and IP blocks / certificate bag / CRL bag / signer infos, RFC 6492 list_response (n AS numbers, n prefixes, n classes, n issued certificates) and RFC 8181 list reply / publish-withdraw query with n elements — "
+        "each written by the independent DER writer at n entries (about 100 kB), 4n, 16n (about 1.6 MB) and, in the thorough tier, 64n (about 6.4 MB; a size is only entered while the laws held so far and its predicted cost stays under 1 s / 4 s of CPU per run), in scrambled order where the order is free, spliced into a pool-signed seed and re-signed where the list lives inside a signed object; every such input goes through the ordinary evaluation, "
+        "then the decoding step alone (decode_only) and decode + sweep are timed (thread CPU clock, minima of 5 and 3 runs; 7 and 4 thorough) and their peak heap taken at both sizes, through each home entry point of the shape (80 shape x entry point pairs and 160 size steps in quick, 233 in thorough, spread over the shards; observation counters scale:* name the regions reached, the steps compared per size class and the largest factors seen); n varies by up to 12 % with the seed; "
         "5 raw byte mutators; random strings; text mutators for TALs; for pool-signed seeds one mutant in 8 (16 thorough) is mutated inside a signed region and "
         "re-signed (message digest, signed attributes, EE certificate, CRL) so that it passes the signature checks; towers of 10^2..10^4 (3*10^4 thorough) nested "
         "constructed values, bare and planted inside real objects, each evaluated in a child process on a 2 MiB thread stack. "
+        "A scaling comparison counts as two evaluations (decode, decode + sweep) and one case signature (shape, entry point, size step). "
         "A case signature (distinct_nontrivial) is (entry point, first mutator [+ if stacked], outcome class = 'ok' or the decoder's error text without numbers, "
         "error position in eighths of the input = how deep the decoder got); inputs rejected within the first four bytes are trivial and only counted as evaluations. "
         "The fuzz stage adds libFuzzer executions of the same evaluate function (counted as evaluations, no signatures)."
@@ -45,6 +52,12 @@ prop(
         "'for every byte string' is sampled: structure-aware mutants of ~100 seeds, random strings and coverage-guided fuzzing, not an enumeration",
         "budgets as stated in the design: peak heap <= 64 KiB + 64*len per evaluation (decode + whole accessor sweep, harness formatting goes to a counting sink), "
         "thread CPU time <= 0.2 s + 1 us*len (native stage only; three runs must all exceed, each taken next to a steady reference computation because the CPU clock of this VM also advances while the vCPU is descheduled); on the pinned tree the observed maxima are 13 % (heap) and 4-26 % (CPU, 16 shards in parallel) of these budgets",
+        "scaling laws between consecutive sizes of the same shape (the constants are the monitor's reading of 'a fixed multiple of the input size'): CPU t(4n) <= 8 t(n) + 1 ms and peak heap(4n) <= 8 heap(n) + 256 KiB, for the decoding step and for decode + accessor sweep (DESIGN §4 C04 puts accessors under the budgets); "
+        "a linear or n log n decoder measures 3.6-4.6 on the pinned tree (up to 5.9 with 16 shards on a machine at load 100), a quadratic one 12-30. A CPU excess only counts after three further runs of the large input that all exceed, each next to a steady reference computation, and is dropped as soon as one run satisfies the law (the clock only over-counts); "
+        "pairs whose size factor falls outside 2.5..4.5 or that a decoder refuses are counted and not judged; the next size is not entered when a law is already broken or the predicted CPU time of one run exceeds 1 s (quick) / 4 s (thorough) — the watchdog would otherwise kill the shard; "
+        "a quadratic term that is small against the linear cost of the accessor sweep (a memmove per entry, say) needs the larger sizes to reach a factor of 8 and can stay below it",
+        "in the accessor sweep of block lists longer than 512 blocks the two look-ups that scan from the front (contains_block / intersects_block) are made for every 16th block and the last eight, not for each of up to 4096: asking for each would be a quadratic of the harness's own making; "
+        "the five IP resource decoders of the ipres entry points are run decode-sweep-drop one after the other so that the heap budget is not charged with five live copies",
         "a runaway evaluation (more than 20 s of worker CPU time, read by a watchdog thread from the worker's CPU clock) aborts the shard, an allocation blow-up hits RLIMIT_AS; both are reported by the driver from the breadcrumb after the re-run died the same way; the wall-clock watchdog alone only yields inconclusive",
         "where the harness has to choose an encoding mode for an encode_ref() value of something decoded in relaxed/BER mode it chooses BER (bcder asserts against emitting "
         "BER-captured parts in DER mode); the library's own to_captured()/to_bytes()/Serialize choose their mode themselves and are held to the property",
@@ -58,12 +71,12 @@ prop(
         "Runtime monitoring of the real decoders on hostile inputs: ~1.9 million (quick) / ~23 million (thorough, native stage) decode-and-sweep evaluations of structure-aware mutants under "
         "panic capture, a counting allocator and the thread CPU clock, repeated under AddressSanitizer (200 k mutants), Miri (pure-parse sub-structures, ~300 evaluations) and 4 minutes of "
         "coverage-guided libFuzzer (16 forks, ASan, 40-50 million executions) over four targets that call the same evaluation function; process death (stack overflow, abort, allocation failure, CPU limit) is observed "
-        "through child processes and the driver's breadcrumb protocol. This is the strongest level this technique family offers for a 'for all byte strings' property; it samples."
+        "through child processes and the driver's breadcrumb protocol; 'a fixed multiple of the input size' is additionally observed as growth: 49 generated shapes of 0.1 / 0.4 / 1.6 (/ 6.4) MB compared pairwise under a CPU and a heap scaling law. This is the strongest level this technique family offers for a 'for all byte strings' property; it samples."
     ),
     level_note=(
         "Trusts the harness' own TLV parser/serialiser, the counting allocator and CLOCK_THREAD_CPUTIME_ID; cannot show absence of panics on inputs not generated; "
         "ASan/Miri see only what the workload executes; aws-lc internals are exercised (hostile keys and signatures) but only watched by ASan-less native code and libFuzzer's ASan build of the Rust side."
     ),
-    technique="runtime monitoring: structure-aware DER/BER mutation + accessor sweep under catch_unwind / counting allocator / CPU clock; ASan; Miri; libFuzzer",
+    technique="runtime monitoring: structure-aware DER/BER mutation + accessor sweep under catch_unwind / counting allocator / CPU clock; generated large inputs (every list-like structure at n, 4n, 16n entries) under CPU and heap scaling laws between sizes; ASan; Miri; libFuzzer",
     design_ref="DESIGN.md §4 C04",
 )
